@@ -142,8 +142,6 @@ using vsp = y::virtual_shared_ptr<T, P>;
         c16::shape_classes<P>::A* a, int x, c16::shape_classes<P>::A* b);      \
     int c16_call_vptr_uni__##SHAPE(                                            \
         const c16::vp<c16::shape_classes<P>::A, P>* p, int x);                 \
-    int c16_call_vptr_cref__##SHAPE(                                           \
-        const c16::vp<c16::shape_classes<P>::A, P>* p, int x);                 \
     int c16_call_vptr_multi__##SHAPE(                                          \
         const c16::vp<c16::shape_classes<P>::A, P>* p,                         \
         const c16::vp<c16::shape_classes<P>::A, P>* q);                        \
@@ -190,5 +188,8 @@ C16_DECLARE_ROUTES(dbg, c16::dbg_policy)
 C16_DECLARE_ROUTES(nohash, c16::nohash_policy)
 C16_DECLARE_ROUTES(vmap, c16::vmap_policy)
 C16_DECLARE_ROUTES(ind, c16::ind_policy)
+
+// one uni-method and one 2-method call through the foreign policy
+extern "C" int c16_foreign_call(c16::Animal* a, c16::Animal* b);
 
 #endif
